@@ -1,16 +1,17 @@
 SPECIFICATION Spec
 CONSTANTS
   MaxH = 2
-  MaxR = 1
+  MaxR = 2
   NN0 = 3
   T100 = 670
   Ex0 = {}
   Facts = {"A", "B"}
-  MaxOps = 2
+  MaxOps = 3
   StartAll = TRUE
-  StartSuf = {TRUE, FALSE}
+  StartSuf = {TRUE}
   EvpAny = FALSE
-  WithSetLast = TRUE
+  SymFirst = TRUE
+  WithSetLast = FALSE
   Guard = "before"
 VIEW View
 INVARIANTS TypeOK
